@@ -1,24 +1,26 @@
 #!/usr/bin/env python3
 """Prints the prompt for an independent mutant-writing agent: mutprompt.py NAME ID..."""
-import json,sys
+import json,sys,os
 name=sys.argv[1]; ids=sys.argv[2:]
 props={}
 for l in open('/verif/properties.jsonl'):
     l=l.strip()
     if l:
         r=json.loads(l); props[r['id']]=r
+COUNT=os.environ.get('MUT_COUNT') or '2 different changes if you can (at least 1)'
+EXTRA=os.environ.get('MUT_EXTRA') or ''
 out=[]
 out.append(f"""You are a careful Go engineer helping to evaluate a verification effort for the Go module golang.org/x/net (offline sandbox, no network). Your job: for each property listed below, produce realistic *defect-introducing changes* ("seeded bugs") to golang/net that BREAK the property while the code still compiles and the module's existing test suite still passes — plus a small demonstration (a Go test file or tiny program) that FAILS with your change and PASSES without it.
 
 Rules:
 - Work ONLY in your own scratch git worktree. Create it with: git -C /repo worktree add /tmp/mut/{name} HEAD   (then work in /tmp/mut/{name}). Never edit /repo itself. Do NOT read or use anything under /verif (that is the system being evaluated; your changes must be independent of it). Do not look at other /tmp/mut/* or /tmp/wt/* directories.
 - Go environment for every command: run inside your worktree with env GOFLAGS=-mod=mod GOPROXY=off (do not set GOSUMDB). Example: cd /tmp/mut/{name} && GOFLAGS=-mod=mod GOPROXY=off go test ./quic/
-- For each property produce 2 different changes if you can (at least 1). Prefer changes that need something specific to manifest — a particular interleaving or timing, a fault at a particular point, a multi-step sequence of operations, an unusual/boundary input, or two cooperating sites that each look fine alone — NOT ones that ordinary use (and therefore the existing tests) would expose at once. They should look like plausible programmer mistakes (off-by-one at a boundary, a missed case, a wrong variable, a dropped update on a rare path), small (1–15 lines), and must clearly violate the property statement as written (not merely change unspecified behaviour).
+- For each property produce {COUNT}. Prefer changes that need something specific to manifest — a particular interleaving or timing, a fault at a particular point, a multi-step sequence of operations, an unusual/boundary input, or two cooperating sites that each look fine alone — NOT ones that ordinary use (and therefore the existing tests) would expose at once. They should look like plausible programmer mistakes (off-by-one at a boundary, a missed case, a wrong variable, a dropped update on a rare path), small (1–15 lines), and must clearly violate the property statement as written (not merely change unspecified behaviour).
 - Each change must: (1) compile (go build ./... && go vet of the touched package); (2) keep the existing tests of the touched package(s) and of packages that import them passing (run go test for those packages; e.g. for http2/hpack also run ./http2/; tests are sometimes slow/flaky under machine load: re-run once before concluding); (3) be demonstrated: write the demonstration as a _test.go file placed in the relevant package directory of your worktree (it may be an in-package white-box test) named zz_seed_<ID>_<n>_test.go with a single test function TestSeed_<ID>_<n>; show that it FAILS with the change and PASSES on the unchanged code (do NOT use `git stash` — the stash is shared by all worktrees of /repo and other agents use it too; compare with `git diff > /tmp/mut/<you>/p.diff; git apply -R p.diff; ...; git apply p.diff`).
 - Deliverables, for each change n of property ID: directory /tmp/mut/{name}/out/<ID>-<n>/ containing: patch.diff (output of `git diff -- <changed non-test files>` relative to HEAD, applies with `git apply`), the demonstration test file (copy), and meta.json with fields: property (ID), title (one line), breaks (which clause of the statement it violates and why), needs (what specific input/sequence/interleaving/fault is needed for it to manifest), files (changed files), demo (path of the test file relative to repo root, and the `go test` command to run it), existing_tests (the commands you ran and that they passed). After collecting a change, revert the source edit (git checkout -- <files>) and remove the demo test from the package dir before starting the next one, so changes are independent.
 - When finished, leave the worktree in place and reply with a short list: for each <ID>-<n> one line (what was changed, what is needed to trigger). If you could not break a property without failing existing tests, say so and why.
 
-Properties (each is a semantic property the library is supposed to satisfy; "anchors" name the code involved):
+{EXTRA}Properties (each is a semantic property the library is supposed to satisfy; "anchors" name the code involved):
 """)
 for i in ids:
     r=props[i]
